@@ -99,7 +99,11 @@ pub fn rl_by_decomposition(bits: &Bits, which: u8, split: &[u8], redundant: bool
         2 => build_rl(n, &runs, split, redundant, true),
         3 => {
             let mut b = RLBuilder::new();
-            for p in bits.positions() {
+            for (k, p) in bits.positions().into_iter().enumerate() {
+                // the gap in front of a bit may be made by set_len (then the bit is set exactly at len())
+                if redundant && k % 2 == 0 && p > b.len() {
+                    b.set_len(p);
+                }
                 unsafe { b.set_bit_unchecked(p) };
             }
             b.set_len(bits.len);
